@@ -416,6 +416,7 @@ func InsertStmtFront(body *target.BlockStmt, stmt target.Stmt) {
 type forStmt struct {
 	init target.Stmt
 	cond target.Expr
+	pre  []target.Stmt // statements hoisted out of the condition: re-evaluated on every iteration
 	body *target.BlockStmt
 	old  codeBlockCtx
 	old2 codeBlockCtx
@@ -430,7 +431,19 @@ func (p *forStmt) Then(cb *CodeBuilder, src ...ast.Node) {
 		}
 		p.cond = cond.Val
 	}
-	switch stmts := cb.clearBlockStmt(); len(stmts) {
+	stmts := cb.clearBlockStmt()
+	// Statements hoisted out of the condition (e.g. `_autoGo_1, _ := a.(map[string]any)` for
+	// member access on `any`) are not an init statement: the condition must see fresh values on
+	// every iteration, so they move to the head of the body, followed by `if !cond { break }`.
+	n := len(stmts)
+	for n > 0 && cb.pkg.isAutoAssert(stmts[n-1]) {
+		n--
+	}
+	if n < len(stmts) && p.cond != nil {
+		p.pre = append(p.pre, stmts[n:]...)
+		stmts = stmts[:n]
+	}
+	switch len(stmts) {
 	case 0:
 		// nothing to do
 	case 1:
@@ -439,6 +452,22 @@ func (p *forStmt) Then(cb *CodeBuilder, src ...ast.Node) {
 		panic("TODO: for condition has too many init statements")
 	}
 	cb.startBlockStmt(p, src, "for body", &p.old2)
+}
+
+// condInBody moves a condition that depends on hoisted statements into the loop body.
+func (p *forStmt) condInBody() {
+	if p.pre == nil {
+		return
+	}
+	brk := &target.IfStmt{
+		Cond: &target.UnaryExpr{Op: token.NOT, X: p.cond},
+		Body: &target.BlockStmt{List: []target.Stmt{&target.BranchStmt{Tok: token.BREAK}}},
+	}
+	list := make([]target.Stmt, 0, len(p.pre)+1+len(p.body.List))
+	list = append(list, p.pre...)
+	list = append(list, brk)
+	p.body.List = append(list, p.body.List...)
+	p.cond, p.pre = nil, nil
 }
 
 func (p *forStmt) Post(cb *CodeBuilder) {
@@ -461,6 +490,7 @@ func (p *forStmt) End(cb *CodeBuilder, src ast.Node) {
 		p.body = &target.BlockStmt{List: stmts}
 		cb.endBlockStmt(&p.old)
 	}
+	p.condInBody()
 	cb.emitStmt(&target.ForStmt{
 		Init: p.init, Cond: p.cond, Post: post, Body: p.handleFor(p.body, 0),
 	})
